@@ -25,6 +25,12 @@ pub fn exec(t: &[&str]) -> Option<String> {
             Some(format!("{} {} {}", hex(&b), if na { "na".to_string() } else { hex(&tx.hash().0) }, hex(&tx.prefix.hash().0))) }
         // embedded parse (what `Block` decoding does with the miner transaction): id, prefix hash, bytes consumed
         ["c05_txid_partial", h] => Some(match deserialize_partial::<Transaction>(&unhex(h)) { Ok((tx, k)) => format!("ok {} {} {}", hex(&tx.hash().0), hex(&tx.prefix.hash().0), k), Err(_) => "err".into() }),
+        // `TransactionPrefix::hash` on a prefix parsed on its own (strict): the hash of exactly the bytes received
+        ["c05_prefixhash", h] => Some(match deserialize::<TransactionPrefix>(&unhex(h)) { Ok(p) => format!("ok {}", hex(&p.hash().0)), Err(_) => "err".into() }),
+        // a non-Null RingCT struct WITHOUT its prunable part (not the parse of any byte string): `Transaction::hash` uses its hard-coded constant
+        ["c05_id_noprun", rest @ ..] => { let mut tk = Toks { t: rest, i: 0 }; let mut tx = match desc::parse_tx(&mut tk) { Some(x) if tk.i == rest.len() => x, _ => return Some("bad-desc".into()) };
+            if tx.prefix.version.0 == 1 || tx.rct_signatures.sig.as_ref().map(|s| s.rct_type == RctType::Null).unwrap_or(true) { return Some("bad-desc".into()); }
+            tx.rct_signatures.p = None; Some(hex(&tx.hash().0)) }
         // the embedded parse through a SHORT-READING reader (one byte per `read` call, a legal `io::Read`): same answer as `c05_txid_partial`
         ["c05_txid_chunked", h] => Some(match decode_chunked::<Transaction>(&unhex(h)) { Some((tx, k)) => format!("ok {} {} {}", hex(&tx.hash().0), hex(&tx.prefix.hash().0), k), None => "err".into() }),
         ["c05_txid", h] => Some(match deserialize::<Transaction>(&unhex(h)) { Ok(tx) => format!("ok {} {}", hex(&tx.hash().0), hex(&tx.prefix.hash().0)), Err(_) => "err".into() }),
@@ -243,6 +249,11 @@ pub fn run_c05(o: &mut Out, tier: &str, seed: u64) {
         // intrinsic: equal bytes => equal id; the id of a re-parsed tx equals the id of the original
         if let Ok(t2) = deserialize::<Transaction>(&b) { o.direct(t2.hash() == tx.hash(), "C05: id(parse(serialize x)) == id(x)", format!("c05_txid {}", hex(&b)), hex(&t2.hash().0), hex(&tx.hash().0));
             short_read_id(o, &b, &t2, b.len(), "generated", it % 4 == 1); }
+        // the prefix parsed on its own: its hash is the hash of exactly those bytes (and one more byte is refused)
+        if it % 4 == 3 { let pb = serialize(&tx.prefix); o.stat("id.prefix-standalone"); let res = o.op(format!("c05_prefixhash {}", hex(&pb)), true);
+            o.direct(res == format!("ok {}", hex(&tx.prefix.hash().0)), "C05: prefix hash of the prefix parsed on its own == prefix hash of the transaction's prefix", format!("c05_prefixhash {}", hex(&pb)), trunc(&res, 100), hex(&tx.prefix.hash().0));
+            if it % 16 == 3 { let mut pb1 = pb.clone(); pb1.push(r.byte()); let res = o.op(format!("c05_prefixhash {}", hex(&pb1)), false);
+                o.direct(res == "err", "C05: a prefix followed by one more byte does not parse strictly as a prefix", format!("c05_prefixhash {}", hex(&pb1)), trunc(&res, 100), "err".into()); } }
         // a blob cut short by 1..31 bytes (inside its last key / signature / extra byte) defines no identifier: strict parsing must refuse it
         // (the format is prefix-free: Props/C05 `C05_no_id_for_proper_prefix`)
         if it % 5 == 2 && b.len() > 32 { let j = *r.pick(&[1usize, 2, 8, 16, 31]); let cut = &b[..b.len() - j]; o.stat("id.cut-short");
@@ -280,6 +291,11 @@ pub fn run_c05(o: &mut Out, tier: &str, seed: u64) {
         if let Ok((tp, kp)) = deserialize_partial::<Transaction>(&bs) { short_read_id(o, &bs, &tp, kp, "embedded", it % 3 == 0); }
         for _ in 0..2 { let m = mutate_deep(&mut r, &b); let res = o.op(format!("c05_txid {}", hex(&m)), false); if res != "err" { o.nontrivial.insert(hex(&m)); o.stat("id.deep-splice.ok"); } else { o.stat("id.deep-splice.err"); } }
         if it % 5 == 0 { let m = gen::mutate(&mut r, &bs); o.op(format!("c05_txid_partial {}", hex(&m)), false); } } }
+    // (4b) outside the parsed domain: non-Null RingCT structs whose prunable part is absent — the library hashes a hard-coded constant
+    //      (regenerated into the model as Gen.emptyPrunableHash; by the book it is the byte-reversed Keccak of the empty string)
+    for &rct in gen::RCT_TYPES.iter() { if rct == RctType::Null { continue; } for nin in [1usize, 2] {
+        let mut s = shape_of(2, nin, 2, 1, rct, false); s.nbp = 1; let tx = gen::tx_of(&mut r, &s); o.stat("id.no-prunable");
+        described(o, format!("c05_id_noprun {}", desc::tx_desc(&tx)), Some("no-prunable")); } }
     // (5) mainnet transactions quoted in the library's own tests, and the miner transactions of the quoted blocks as embedded parses
     let (txs, blocks) = repo_literals();
     for b in &txs { o.stat("id.mainnet"); o.op_keyed(format!("c05_txid {}", hex(b)), true, "mainnet-tx"); if let Ok(t2) = deserialize::<Transaction>(b) { short_read_id(o, b, &t2, b.len(), "mainnet", true); } }
